@@ -126,7 +126,8 @@ class Fru(object):
 
         while True:
             # read the header
-            data = self.read_fru_data(offset=offset, count=5)
+            data = self.read_fru_data(offset=offset, count=5,
+                                      fru_id=fru_id)
             end_of_list = bool(data[1] & 0x80)
             length = data[2]
             count += length + 5
@@ -136,7 +137,7 @@ class Fru(object):
 
         # now read the full area
         offset = header.multirecord_area_offset
-        data = self.read_fru_data(offset=offset, count=count)
+        data = self.read_fru_data(offset=offset, count=count, fru_id=fru_id)
         return InventoryMultiRecordArea(data)
 
     def get_fru_inventory(self, fru_id=0):
